@@ -190,8 +190,24 @@ def run(plan):
                 if op.get("lose_ack") and kind == "apply" and changed:
                     # the acknowledgement of the property write is lost (all transmissions unanswered)
                     aop["net"] = [{}, {"drop": True}, {"drop": True}, {"drop": True}]
+                cancel_connect = bool(op.get("cancel_in_connect") and kind == "apply" and changed)
+                if cancel_connect:
+                    # the device closes the connection after answering the state command; the property write has to
+                    # reconnect first, the connect is slow, and the caller's own timeout cancels apply() meanwhile
+                    aop["net"] = [{"close": "after", "same_tick": True}]
+                    aop["conn"] = [["accept", 0.5]]
+                    aop["cancel"] = 0.25
                 nlog = len(dev.log)
                 o = await s.do(aop)
+                if cancel_connect:
+                    if o.kind not in ("cancelled", "ok"):
+                        res.fail(f"cancelled apply raised {o.exc_type}", repr(o.exc))
+                        return
+                    w.fire("apply_cancelled_while_reconnecting")
+                    await asyncio.sleep(1.0)
+                    if o.kind == "cancelled" and not dev.prop_sets[n0:]:
+                        # nothing was transmitted: the settings are still pending for the next apply
+                        continue
                 if o.kind != "ok":
                     res.fail(f"{kind} raised {o.exc_type}", repr(o.exc))
                     return
@@ -311,7 +327,9 @@ def gen(j, rng):
         elif r < 0.52:
             ops.append({"op": "beep", "value": rng.random() < 0.5})
         elif r < 0.75:
-            ops.append({"op": "apply", "lose_ack": True} if rng.random() < 0.15 else {"op": "apply"})
+            rr = rng.random()
+            ops.append({"op": "apply", "lose_ack": True} if rr < 0.15 else
+                       {"op": "apply", "cancel_in_connect": True} if rr < 0.27 else {"op": "apply"})
         elif r < 0.92:
             ops.append({"op": "refresh"})
         elif r < 0.96 and p["clean"]:
